@@ -65,12 +65,18 @@ def build(repo, verif, work, goenv, log):
         out = os.path.join(d, "worker-" + name)
         tmp = out + ".tmp"
         env = goenv()
-        if name != "portable":
-            # a CGO_CFLAGS inherited from the caller must not turn every build into the same one
-            env.pop("CGO_CFLAGS", None)
+        # the driver's CGO_CFLAGS carries -DVERIF_C_TREE=<hash of the C/asm tree> so that edits to files the
+        # Go build cache does not hash (blst_src/build/**/*.s) force a rebuild; keep that define in every build
+        tree_define = " ".join(w for w in env.get("CGO_CFLAGS", "").split() if w.startswith("-DVERIF_C_TREE="))
         if name != "nocgo":
             env["CGO_ENABLED"] = "1"
         env.update(extra)
+        if name == "portable":
+            env["CGO_CFLAGS"] = (extra["CGO_CFLAGS"] + " " + tree_define).strip()
+        elif name != "nocgo":
+            env["CGO_CFLAGS"] = ("-g -O2 " + tree_define).strip()
+        else:
+            env.pop("CGO_CFLAGS", None)
         cmd = ["go", "build", "-o", tmp] + mod + args + ["./cfgworker"]
         p = subprocess.Popen(cmd, cwd=harness, env=env, stdout=subprocess.PIPE, stderr=subprocess.STDOUT, text=True)
         procs.append((name, cmd, extra, out, tmp, p))
